@@ -23,6 +23,13 @@ Theorem C12_close_step : forall W cap early ls s l s' c, run W cap early init ls
   forall r, unanswered (rs s c r) = false /\ rs s' c r = rs s c r.
 Proof. exact ShutdownProofs.c12_close_step. Qed.
 
+(* ... and a request that was read and is not answered — whether pending, queued in JobQueue, in the dispatcher's
+   hand, spawned or running — is counted in numInvoke and keeps its connection open and in the table *)
+Theorem C12_unanswered_keeps_connection : forall W cap early ls s, run W cap early init ls = Some s ->
+  forall c r, unanswered (rs s c r) = true ->
+  In r (busy s c) /\ (cst s c = COpen \/ cst s c = CExited) /\ inmap s c = true.
+Proof. exact ShutdownProofs.c12_unanswered_keeps_connection. Qed.
+
 (* 2. Every request read is executed, with and without a pool (repaired code): while the process lives, a request
    that is read and unanswered never gets stuck — some step of the request pipeline is enabled in every shutdown
    phase; every step keeps or raises the rank of every request, a pipeline step raises the rank of an unanswered
@@ -135,6 +142,7 @@ Proof. exact ShutdownProofs.accepts_sound. Qed.
 
 Print Assumptions C12_answered_before_close.
 Print Assumptions C12_close_step.
+Print Assumptions C12_unanswered_keeps_connection.
 Print Assumptions C12_read_requests_progress.
 Print Assumptions C12_rank_monotone.
 Print Assumptions C12_pipeline_step_advances.
